@@ -176,6 +176,11 @@ Definition show_loaded_page (fuel : nat) (a : N) : prog unit :=
 (* Sign::shut_down *)
 Definition shut_down (a : N) : prog unit := expect (Goodbye a) None.
 
+(* Sign::width / Sign::height / Sign::create_page: no bus traffic, only the sign type's dimensions. *)
+Definition sign_width (t : sign_type) : N := fst (dimensions t).
+Definition sign_height (t : sign_type) : N := snd (dimensions t).
+Definition create_page (t : sign_type) (id : N) : page := page_new id (sign_width t) (sign_height t).
+
 (* ------------------------------------------------------------------ *)
 (* Interpreters *)
 
